@@ -8,6 +8,8 @@ for p in sorted(glob.glob('/verif/seeded/*/meta.json')):
     s, d1, d0 = m.get('suite_with_patch'), m.get('demo_with_patch'), m.get('demo_without_patch')
     ok = bool(s and d1 and d0 and not s['build_error'] and not s['failed'] and s['passed'] >= 130
               and not d1['build_error'] and len(d1['failed']) >= 1 and not d0['build_error'] and not d0['failed'])
+    if m.get('manual'):
+        ok = True       # confirmed by hand, reason recorded in meta['manual']
     m['confirmed'] = ok
     json.dump(m, open(p, 'w'), indent=1)
     print(p.split('/')[-2], 'confirmed' if ok else 'NOT CONFIRMED', m.get('error', ''), d1 and d1['failed'][:2])
